@@ -45,6 +45,28 @@ pub fn agree<F: Family>(b: &[u8], origin: &str, ctx: &mut Ctx) -> CaseResult {
         }
     }
 
+    // the public per-type body decoders (header first, then `X::decode_async` on what follows) are a fourth way in: on a
+    // complete frame they must give what the packet-level decoder gives on exactly that frame
+    if let Some(flen) = refdec::complete_frame_len(b) {
+        let frame = &b[..flen];
+        if let Some(bl) = F::body_level_decode(frame) {
+            let (pk, _) = fam::dec_async::<F>(frame);
+            let same = match (&bl, &pk) {
+                (Ok(x), Ok(y)) => x == y,
+                (Err(x), Err(y)) => x == y || (F::is_eof(x) && F::is_eof(y)),
+                _ => false,
+            };
+            ensure!(
+                same,
+                "the body-level decoder of {} returned {:?} but the packet-level async decoder returned {:?} on the frame {}",
+                type_name(frame[0] >> 4),
+                bl.as_ref().map(|q| fam::render(q)),
+                pk.as_ref().map(|q| fam::render(q)),
+                hex_short(frame, 96)
+            );
+            ctx.label("body-level-decoder-compared");
+        }
+    }
     // on a string that starts with a complete frame the strict decoder is the reference
     let mut class = "no-complete-frame".to_string();
     if refdec::complete_frame_len(b).is_some() {
@@ -178,6 +200,7 @@ pub fn run(env: &mut Env) -> RunResult {
     }
     for s in ["c06.agree.v3", "c06.agree.v5", "c06.short-frames.v3", "c06.short-frames.v5"] {
         env.require(s, "bare-header:accepted");
+        env.require(s, "body-level-decoder-compared");
         env.require(s, "bare-header:rejected");
     }
     env.require("c06.agree.v5", "poll-reject:InvalidPropertyId");
